@@ -14,7 +14,7 @@ pub trait MaybeSerde {}
 #[cfg(not(any(feature = "serde", feature = "compactserde")))]
 impl<T> MaybeSerde for T {}
 
-pub trait Elem: Fits64 + Copy + Ord + Eq + std::fmt::Debug + Send + Sync + MaybeSerde + 'static {
+pub trait Elem: Fits64 + Copy + Ord + Eq + std::fmt::Debug + Send + Sync + MaybeSerde + std::panic::RefUnwindSafe + std::panic::UnwindSafe + 'static {
     const NAME: &'static str;
     const BITS: u32;
     fn from_raw(v: u64) -> Self;
@@ -429,10 +429,22 @@ fn fits_table<T: Elem>(out: &mut dyn std::io::Write, rng: &mut Xs, samples: usiz
     for v in vals {
         let x = T::from_raw(v);
         let raw = x.to_raw();
-        let enc = x.to_u64();
+        let enc = match std::panic::catch_unwind(|| x.to_u64()) {
+            Ok(e) => e,
+            Err(_) => {
+                fails.push(format!("ORACLE-FAIL props=C03 type={} hist=fits step=0 to_u64({:?}) panicked", T::NAME, x));
+                continue;
+            }
+        };
         writeln!(out, "fits {} {} {}", T::NAME, raw, enc).unwrap();
         n += 1;
-        let back = unsafe { T::from_u64(enc) };
+        let back = match std::panic::catch_unwind(|| unsafe { T::from_u64(enc) }) {
+            Ok(b) => b,
+            Err(_) => {
+                fails.push(format!("ORACLE-FAIL props=C03 type={} hist=fits step=0 from_u64(to_u64({:?})) panicked (code {})", T::NAME, x, enc));
+                continue;
+            }
+        };
         if back != x {
             fails.push(format!("ORACLE-FAIL props=C03 type={} hist=fits step=0 from_u64(to_u64({:?})) = {:?}", T::NAME, x, back));
         }
